@@ -2,6 +2,8 @@ use vstd::prelude::*;
 use core::task::{Poll, Context, Waker};
 use core::mem::ManuallyDrop;
 use vstd::std_specs::manually_drop::ManuallyDropAdditionalFns;
+use vstd::std_specs::maybe_uninit::MaybeUninitAdditionalSpecFns;
+use vstd::raw_ptr::MemContents;
 verus! {
 // machine arithmetic: usize is the 64-bit type of the platform the crate is tested on
 global size_of usize == 8;
